@@ -12,7 +12,7 @@ impl Encoder {
         self.u16(srv.priority);
         self.u16(srv.weight);
         self.u16(srv.port);
-        self.domain_name(&srv.target)?;
+        self.domain_name_uncompressed(&srv.target)?;
         self.set_length_index(length_index)
     }
 }
